@@ -34,6 +34,7 @@ var (
 	ErrPeerConnectionWaitTimeout = errors.New("waiting for peer connection timed out")
 	ErrPubSubWaitTimeout         = errors.New("waiting for pubsub timed out")
 	ErrPushLogWaitTimeout        = errors.New("waiting for pushlog timed out")
+	ErrPushLogCIDMismatch        = errors.New("the identifier of the push log request is not the identifier of its block")
 	ErrNilDB                     = errors.New("database object can't be nil")
 	ErrNilUpdateChannel          = errors.New("tried to subscribe to update channel, but update channel is nil")
 	ErrCheckingForExistingBlock  = errors.New(errCheckingForExistingBlock)
